@@ -73,7 +73,7 @@ class SyncProp(Prop):
         cfg["truth_return"] = None
         # (not with an argparse target: a returned expression cannot be carried by the argparse kind - the recorded
         # finding about the argparse return entry, C03/C04)
-        if cfg["truth"] == "function" and cfg["ir"].get("returns") is None and "argparse_function" not in cfg["kinds"] and r.random() < 0.7:
+        if cfg["truth"] == "function" and cfg["ir"].get("returns") is None and "argparse_function" not in cfg["kinds"]:
             tkd = cfg["kinds"]["function"]
             tf = next(f for f in tkd["files"] if f["prestate"] == "truth")
             names = [n for n, _ in cfg["ir"]["params"]]
